@@ -137,4 +137,31 @@ mod verif_c04d {
         let got2 = de::Deserializer::deserialize_tuple(&mut d2, k, LenProbe).unwrap();
         assert!(got2 == k, "SPEC: deserialize_tuple must use the static arity");
     }
+
+    /// C01/C03: the enum discriminant is read as varint(u32) - for EVERY byte string <= 7 the variant index handed to serde, the
+    /// bytes consumed and the error kind equal the wire-format decoder's (covers indices >= 128, padded indices, u32::MAX)
+    #[kani::proof]
+    #[kani::unwind(8)]
+    fn variant_index_contract() {
+        use crate::verif_ref::*;
+        let b: [u8; 7] = kani::any();
+        let l: usize = kani::any();
+        kani::assume(l <= 7);
+        let inp = &b[..l];
+        let mut d = Deserializer::from_bytes(inp);
+        let got = match serde::de::EnumAccess::variant_seed(&mut d, PhantomData::<u32>) {
+            Ok((idx, _rest)) => Ok(idx),
+            Err(e) => Err(e),
+        };
+        let rest = d.finalize().unwrap().len();
+        match (got, ref_dec(inp, 32)) {
+            (Ok(idx), Ok((w, used))) => {
+                kani::cover!(w >= 128);
+                assert!(idx as u128 == w, "SPEC: variant index differs from the varint(u32) on the wire");
+                assert!(rest == l - used, "SPEC: reading the variant index consumed a different number of bytes than its varint");
+            }
+            (Err(e), Err(f)) => assert!(err_code(&e) == err_code(&f), "SPEC: error kind differs"),
+            _ => panic!("SPEC: accept/reject of the variant index differs from the wire-format decoder"),
+        }
+    }
 }
